@@ -89,8 +89,13 @@ TopLoop(T, pos, nodes, label, mode) ==
               IF IsT(Tok(T, pos + 2), "L") /\ IsT(Tok(T, pos + 3), ")") THEN TopLoop(T, pos + 4, nodes, label, mode) ELSE Fail
          ELSE Fail
 \* result of converting token stream T: err, or the parent of every point (ids in creation = pre-order) and the tree label
+\* after the document's closing bracket only comments may follow (mode "trailing": named deviation - whatever follows is ignored, the parser before its repair)
+OnlyComments(T, pos) == \A k \in pos .. Len(T) : IsT(T[k], ";")
 ParseWith(T, mode) == IF ~IsT(Tok(T, 1), "(") THEN Fail @@ [label |-> ""]
-                      ELSE LET r == TopLoop(T, 2, <<>>, "", mode) IN IF r.err THEN Fail @@ [label |-> ""] ELSE r
+                      ELSE LET r == TopLoop(T, 2, <<>>, "", mode) IN
+                           IF r.err THEN Fail @@ [label |-> ""]
+                           ELSE IF mode \in {"asis", "nolead"} /\ ~OnlyComments(T, r.pos) THEN Fail @@ [label |-> ""]        \* (the historical deviations predate this check)
+                           ELSE r
 Parse(T) == ParseWith(T, "asis")
 
 \* ======================= the table a complete document denotes (reference interpreter as a function of the token stream) =======================
@@ -123,7 +128,8 @@ Corrupt(T, p, kind) ==
       [] kind = "literal-for-float" -> Splice(T, p + 1, p + 1, <<L("abc")>>)
       [] kind = "glued-word"        -> Splice(T, p + 2, p + 2, <<<<"X", "1abc">>>>)
       [] kind = "missing-close"     -> Splice(T, p + 4, p + 4, <<>>)
-CorruptKinds == {"dropped-float", "extra-float", "literal-for-float", "glued-word", "missing-close"}
+      [] kind = "extra-close"       -> Splice(T, p + 5, p + 4, <<RP>>)                     \* the point's closing bracket twice
+CorruptKinds == {"dropped-float", "extra-float", "literal-for-float", "glued-word", "missing-close", "extra-close"}
 
 \* ======================= coincident points =======================
 \* the same document with the values of its k-th point (k = 0, 1, ..) replaced by those of point k % m: for m = 1 every point of the
